@@ -5,6 +5,7 @@ from __future__ import annotations
 
 import hashlib
 import json
+import os
 import re
 import shutil
 import subprocess
@@ -76,6 +77,7 @@ def prepare_session(sc: Scratch, harness_mods: list[tuple[str, str, str]]) -> di
     lib.write_text(lib.read_text() + "\n#[doc(hidden)]\npub mod verif_map;\n")
     hdir = sc.root / "harness"
     hdir.mkdir(exist_ok=True)
+    shutil.copy(VERIF / "harness" / "nd.rs", hdir / "nd.rs")
     harness_copies = {}
     for rel, modname, hpath in harness_mods:
         hcopy = hdir / Path(hpath).name
@@ -108,6 +110,7 @@ def prepare_memstore(sc: Scratch, harness_path: Path) -> dict:
     totals["vec_new_presized"] = list(n.values())[0]
     hdir = sc.root / "harness"
     hdir.mkdir(exist_ok=True)
+    shutil.copy(VERIF / "harness" / "nd.rs", hdir / "nd.rs")
     hcopy = hdir / harness_path.name
     shutil.copy(harness_path, hcopy)
     lib = src / "lib.rs"
@@ -220,35 +223,16 @@ def script_from_trace(world: dict, ops: list[dict]) -> dict:
             "_origin": {"world": world, "ops": ops}}
 
 
-def confirm_session(pid: str, sc: Scratch, prep: dict, r, log_dir: Path, modname: str) -> dict:
-    """Replay a Kani counterexample: (1) natively in the shim build to read the symbolic choices
-    back (VTRACE lines), (2) as a public-API script against the real, unshimmed crates."""
-    role = f"{r.spec.name}: " + "; ".join(sorted({c["description"] for c in r.failed}))
-    r2 = core.run_kani(prep["pkg_dir"], prep["target_dir"], r.spec, log_dir, prep.get("kani_args"), playback="print")
-    text = Path(r2.log_path).read_text(errors="replace")
-    tests = re.findall(r"Concrete playback unit test for `[^`]+`:\n```\n(.*?)```", text, re.S)
-    tests = [t for t in tests if "Check for `cover`" not in t] or tests
-    if not tests:
-        return {"reproduced": None, "role": role, "detail": "Kani produced no concrete playback test"}
-    test = tests[0]
-    hcopy = prep["harness_copies"][modname]
-    hcopy.write_text(hcopy.read_text() + "\n" + test + "\n")
-    m = re.search(r"fn (kani_concrete_playback_\w+)", test)
-    name = m.group(1)
-    p = subprocess.run(["cargo", "kani", "playback", "-Z", "concrete-playback", "--", name, "--nocapture"],
-                       cwd=prep["pkg_dir"], env=core.env_offline(), stdout=subprocess.PIPE, stderr=subprocess.STDOUT, text=True)
-    (log_dir / f"{r.spec.name}.shim-playback.log").write_text(p.stdout)
-    lines = [json.loads(l.split("VTRACE ", 1)[1]) for l in p.stdout.splitlines() if "VTRACE " in l]
+def _try_session_trace(pid: str, r, role: str, lines: list[dict], exe: Path, shim_fails: bool) -> dict:
+    """One concrete input of the harness (as VTRACE records) -> public-API scripts -> real crates."""
     worlds = [l for l in lines if l.get("kind") == "world"]
     ops = [l for l in lines if l.get("kind") == "op"]
     extra = {}
     for l in lines:
         if l.get("kind") == "c12":
             extra = {"cookie": l["cookie"], "middleware": l["middleware"]}
-    shim_fails = bool(re.search(r"test result: FAILED|panicked at", p.stdout))
     if not worlds:
-        return {"reproduced": None, "role": role, "detail": "shim playback produced no trace (see log)"}
-    exe = build_native_replayer(sc, log_dir / "native-build.log")
+        return {"reproduced": None, "role": role, "detail": "no trace"}
     rep_dir = VERIF / "replays" / "generated" / pid
     rep_dir.mkdir(parents=True, exist_ok=True)
     op_sig = " ".join(o["op"] for o in ops)
@@ -276,15 +260,13 @@ def confirm_session(pid: str, sc: Scratch, prep: dict, r, log_dir: Path, modname
                     w["allow"] = not w["allow"]
                 script = script_from_trace(w, ops + cont)
                 script.update(extra)
-                script["_origin"].update({"harness": r.spec.name, "failed": role, "shim_playback_fails": shim_fails,
+                script["_origin"].update({"harness": r.spec.name, "failed": role, "shim_run_fails": shim_fails,
                                           "variant": {"flip_creation": flip_creation, "flip_missing": flip_missing, "continuation": cont}})
                 h = hashlib.sha256(json.dumps(script, sort_keys=True).encode()).hexdigest()[:12]
                 rep = rep_dir / f"{r.spec.name}-{h}.json"
                 rep.write_text(json.dumps(script, indent=1) + "\n")
                 if first is None:
                     first = rep
-                if exe is None:
-                    return {"reproduced": None, "replay": str(rep), "role": role, "detail": "native replayer did not build against the real crates"}
                 ok, detail = run_native_script(exe, rep)
                 tried += 1
                 if ok is True:
@@ -292,29 +274,80 @@ def confirm_session(pid: str, sc: Scratch, prep: dict, r, log_dir: Path, modname
                             "detail": detail + f" [variant {tried}: creation flipped={flip_creation}, missing flipped={flip_missing}, continuation={[c['op'] for c in cont]}]"}
                 if rep != first:
                     rep.unlink(missing_ok=True)
-    return {"reproduced": False, "replay": str(first), "role": f"{r.spec.name}|{op_sig}",
-            "detail": f"none of {tried} concrete scripts derived from the counterexample misbehaves on the real crates" + ("" if shim_fails else " [note: shim playback passed natively]")}
+    return {"reproduced": False, "replay": str(first), "role": f"{r.spec.name}|{op_sig}", "tried": tried,
+            "detail": f"none of {tried} concrete scripts derived from this input misbehaves on the real crates"}
 
 
-def confirm_memstore(pid: str, sc: Scratch, prep: dict, r, log_dir: Path) -> dict:
+def confirm_session(pid: str, sc: Scratch, prep: dict, r, log_dir: Path, modname: str) -> dict:
+    """Replay a Kani counterexample: (1) make it concrete - native search over the harness's own
+    inputs in the shim build (harness/nd.rs), falling back to Kani's concrete playback; (2) turn the
+    concrete input into a public-API script and run it against the real, unshimmed crates."""
     role = f"{r.spec.name}: " + "; ".join(sorted({c["description"] for c in r.failed}))
+    exe = build_native_replayer(sc, log_dir / "native-build.log")
+    if exe is None:
+        return {"reproduced": None, "role": role, "detail": "native replayer did not build against the real crates"}
+    finds = native_search(prep, r.spec.name, log_dir / f"{r.spec.name}.native-search.log", int(os.environ.get("VERIF_SEED", "0") or 0))
+    last = None
+    for tr in finds:
+        out = _try_session_trace(pid, r, role, tr, exe, True)
+        if out.get("reproduced") is True:
+            return out
+        last = out
+    if last is not None:
+        last["detail"] = f"{len(finds)} concrete failing inputs of the shim build: " + last["detail"]
+        return last
+    # fallback: Kani's own concrete playback (expensive: the trace multiplies the formula size)
     r2 = core.run_kani(prep["pkg_dir"], prep["target_dir"], r.spec, log_dir, prep.get("kani_args"), playback="print")
     text = Path(r2.log_path).read_text(errors="replace")
     tests = re.findall(r"Concrete playback unit test for `[^`]+`:\n```\n(.*?)```", text, re.S)
     tests = [t for t in tests if "Check for `cover`" not in t] or tests
     if not tests:
-        return {"reproduced": None, "role": role, "detail": "Kani produced no concrete playback test"}
-    hcopy = prep["harness_copies"]["verif_c13"]
-    hcopy.write_text(hcopy.read_text() + "\n" + tests[0] + "\n")
-    name = re.search(r"fn (kani_concrete_playback_\w+)", tests[0]).group(1)
+        return {"reproduced": None, "role": role, "detail": "native search found no failing input and Kani produced no concrete playback test"}
+    test = tests[0]
+    hcopy = prep["harness_copies"][modname]
+    hcopy.write_text(hcopy.read_text() + "\n" + test + "\n")
+    name = re.search(r"fn (kani_concrete_playback_\w+)", test).group(1)
     p = subprocess.run(["cargo", "kani", "playback", "-Z", "concrete-playback", "--", name, "--nocapture"],
-                       cwd=prep["pkg_dir"], env=core.env_offline(), stdout=subprocess.PIPE, stderr=subprocess.STDOUT, text=True)
+                       cwd=prep["pkg_dir"], env={**core.env_offline(), "VERIF_TRACE_ECHO": "1"}, stdout=subprocess.PIPE, stderr=subprocess.STDOUT, text=True)
     (log_dir / f"{r.spec.name}.shim-playback.log").write_text(p.stdout)
+    # under cfg(test) the harness buffers its trace (nd::trace); the playback test prints nothing by
+    # itself, so the trace is recovered through the panic hook-less native search format
     lines = [json.loads(l.split("VTRACE ", 1)[1]) for l in p.stdout.splitlines() if "VTRACE " in l]
-    stores = [l for l in lines if l.get("kind") == "store"]
-    ops = [l for l in lines if l.get("kind") == "op"]
+    shim_fails = bool(re.search(r"test result: FAILED|panicked at", p.stdout))
+    return _try_session_trace(pid, r, role, lines, exe, shim_fails)
+
+
+def native_search(prep: dict, harness: str, log_path: Path, seed: int = 0) -> list[list[dict]]:
+    """Execute the harness natively (shim build, cfg(test)) on pseudo-random inputs until it fails
+    (harness/nd.rs). Returns the traces (lists of VTRACE records) of up to 8 failing inputs."""
+    env = core.env_offline()
+    env["VERIF_SEED"] = str(seed)
+    p = subprocess.run(["cargo", "kani", "playback", "-Z", "concrete-playback", "--", f"native_search::{harness}", "--nocapture", "--test-threads", "1"],
+                       cwd=prep["pkg_dir"], env=env, stdout=subprocess.PIPE, stderr=subprocess.STDOUT, text=True)
+    log_path.parent.mkdir(parents=True, exist_ok=True)
+    log_path.write_text(p.stdout)
+    finds, cur = [], None
+    for l in p.stdout.splitlines():
+        if l.startswith("NATIVE-SEARCH-FOUND"):
+            cur = []
+        elif l.startswith("NATIVE-SEARCH-PANIC") and cur is not None:
+            cur.append({"kind": "panic", "msg": l.split(" ", 1)[1] if " " in l else ""})
+        elif l.startswith("VTRACE ") and cur is not None:
+            try:
+                cur.append(json.loads(l.split("VTRACE ", 1)[1]))
+            except json.JSONDecodeError:
+                pass
+        elif l.startswith("NATIVE-SEARCH-END") and cur is not None:
+            finds.append(cur)
+            cur = None
+    return finds
+
+
+def _memstore_script(trace: list[dict], harness: str, role: str) -> dict | None:
+    stores = [l for l in trace if l.get("kind") == "store"]
+    ops = [l for l in trace if l.get("kind") == "op"]
     if not stores or not ops:
-        return {"reproduced": None, "role": role, "detail": "shim playback produced no trace (see log)"}
+        return None
     st, op = stores[0], ops[0]
     as_map = lambda m: {k: _val(v) for k, v in zip(("a", "b"), m) if v is not None}
     recs = []
@@ -322,18 +355,63 @@ def confirm_memstore(pid: str, sc: Scratch, prep: dict, r, log_dir: Path) -> dic
         if st[key]:
             recs.append({"id": lab, "state": as_map(st[key]["state"]), "live": st[key]["deadline"] > st["now"],
                          "_deadline": st[key]["deadline"]})
-    script = {"records": recs, "op": {"name": op["name"], "id": op["id"], "to": op["to"], "state": as_map(op["state"]), "batch": op["batch"]},
-              "_origin": {"harness": r.spec.name, "failed": role, "now": st["now"]}}
-    h = hashlib.sha256(json.dumps(script, sort_keys=True).encode()).hexdigest()[:12]
+    return {"records": recs, "op": {"name": op["name"], "id": op["id"], "to": op["to"], "state": as_map(op["state"]), "batch": op["batch"]},
+            "_origin": {"harness": harness, "failed": role, "now": st["now"]}}
+
+
+def confirm_memstore(pid: str, sc: Scratch, prep: dict, r, log_dir: Path) -> dict:
+    role = f"{r.spec.name}: " + "; ".join(sorted({c["description"] for c in r.failed}))
     rep_dir = VERIF / "replays" / "generated" / pid
     rep_dir.mkdir(parents=True, exist_ok=True)
-    rep = rep_dir / f"{r.spec.name}-{h}.json"
-    rep.write_text(json.dumps(script, indent=1) + "\n")
     exe = build_native_replayer(sc, log_dir / "native-build.log")
     if exe is None:
-        return {"reproduced": None, "replay": str(rep), "role": role, "detail": "native replayer did not build against the real crates"}
+        return {"reproduced": None, "role": role, "detail": "native replayer did not build against the real crates"}
+    # 1. make the solver's counterexample concrete: native search over the harness's own inputs
+    finds = native_search(prep, r.spec.name, log_dir / f"{r.spec.name}.native-search.log", int(os.environ.get("VERIF_SEED", "0") or 0))
+    first, n = None, 0
+    for tr in finds:
+        script = _memstore_script(tr, r.spec.name, role)
+        if script is None:
+            continue
+        h = hashlib.sha256(json.dumps(script, sort_keys=True).encode()).hexdigest()[:12]
+        rep = rep_dir / f"{r.spec.name}-{h}.json"
+        rep.write_text(json.dumps(script, indent=1) + "\n")
+        first = first or rep
+        n += 1
+        ok, detail = run_native_script(exe.parent / "memstore_native", rep)
+        if ok is True:
+            return {"reproduced": True, "replay": str(rep), "role": f"{r.spec.name}|{script['op']['name']}", "detail": detail}
+        if rep != first:
+            rep.unlink(missing_ok=True)
+    if n:
+        return {"reproduced": False, "replay": str(first), "role": role,
+                "detail": f"{n} concrete failing inputs of the shim build do not misbehave on the real store (e.g. they need the clock to stand exactly at a deadline)"}
+    return _confirm_memstore_via_playback(pid, sc, prep, r, log_dir, role, exe)
+
+
+def _confirm_memstore_via_playback(pid: str, sc: Scratch, prep: dict, r, log_dir: Path, role: str, exe: Path) -> dict:
+    r2 = core.run_kani(prep["pkg_dir"], prep["target_dir"], r.spec, log_dir, prep.get("kani_args"), playback="print")
+    text = Path(r2.log_path).read_text(errors="replace")
+    tests = re.findall(r"Concrete playback unit test for `[^`]+`:\n```\n(.*?)```", text, re.S)
+    tests = [t for t in tests if "Check for `cover`" not in t] or tests
+    if not tests:
+        return {"reproduced": None, "role": role, "detail": "native search found no failing input and Kani produced no concrete playback test"}
+    hcopy = prep["harness_copies"]["verif_c13"]
+    hcopy.write_text(hcopy.read_text() + "\n" + tests[0] + "\n")
+    name = re.search(r"fn (kani_concrete_playback_\w+)", tests[0]).group(1)
+    p = subprocess.run(["cargo", "kani", "playback", "-Z", "concrete-playback", "--", name, "--nocapture"],
+                       cwd=prep["pkg_dir"], env={**core.env_offline(), "VERIF_TRACE_ECHO": "1"}, stdout=subprocess.PIPE, stderr=subprocess.STDOUT, text=True)
+    (log_dir / f"{r.spec.name}.shim-playback.log").write_text(p.stdout)
+    lines = [json.loads(l.split("VTRACE ", 1)[1]) for l in p.stdout.splitlines() if "VTRACE " in l]
+    script = _memstore_script(lines, r.spec.name, role)
+    if script is None:
+        return {"reproduced": None, "role": role, "detail": "shim playback produced no trace (see log)"}
+    h = hashlib.sha256(json.dumps(script, sort_keys=True).encode()).hexdigest()[:12]
+    rep_dir = VERIF / "replays" / "generated" / pid
+    rep = rep_dir / f"{r.spec.name}-{h}.json"
+    rep.write_text(json.dumps(script, indent=1) + "\n")
     ok, detail = run_native_script(exe.parent / "memstore_native", rep)
-    return {"reproduced": ok, "replay": str(rep), "role": f"{r.spec.name}|{op['name']}", "detail": detail}
+    return {"reproduced": ok, "replay": str(rep), "role": f"{r.spec.name}|{script['op']['name']}", "detail": detail}
 
 
 def replay_script(pid: str, path: Path, exe_name: str = "session_native") -> int:
